@@ -7,7 +7,7 @@
    - when the reference graph is acyclic, every reachable symbol is appended that way (nothing is left for the
      unordered remainder), so in [linked st sb] every symbol comes after all the symbols of the list it refers to. *)
 From Coq Require Import List Arith Bool Lia.
-From Uf Require Import Table.Table Table.TableProofs.
+From Uf Require Import Table.Table Table.TableProofs Table.ClosureProofs.
 Import ListNotations.
 
 Definition ids (l : list sym) : list nat := map s_id l.
@@ -715,4 +715,115 @@ Proof.
   unfold nx, get_refs in In_. destruct (find _ (refs st)) as [e|] eqn:F; [|destruct In_].
   pose proof F as F2. apply find_some in F. destruct F as [Ie Ee]. apply Nat.eqb_eq in Ee. specialize (H e Ie). rewrite forallb_forall in H.
   subst j. apply Nat.ltb_lt. apply H. unfold nx, get_refs. rewrite F2. exact In_.
+Qed.
+
+(* with or without cycles, the walk holds exactly the symbols that reach the start symbol through references *)
+Lemma nx_canon st j n : In n (nx st j) -> find_sym st (s_id n) = Some n.
+Proof.
+  unfold nx. intros H. apply in_flat_map in H. destruct H as [ir [_ H]]. apply in_flat_map in H. destruct H as [r [_ H]].
+  destruct (find_sym st (rr_id r)) as [m|] eqn:F; [|destruct H]. destruct H as [H|[]]. subst m.
+  rewrite (find_sym_id _ _ _ F). exact F.
+Qed.
+
+Theorem linked_members st sb : forall i, In i (ids (linked st sb)) <-> reachable st sb i.
+Proof.
+  destruct (topo_final st sb) as [V [RD T]]. unfold linked.
+  destruct (topo (fuel_t st) st [sb] [] (reach (fuel_t st) st [sb] [] [])) as [out deg'] eqn:TP. cbn [fst snd] in T.
+  intros i. rewrite <- (rd_iff _ _ _ _ RD), ids_app, in_app_iff. split.
+  - intros [H|H].
+    + apply in_map_iff in H. destruct H as [s [Es Is]]. subst i. apply (t_outV _ _ _ _ _ _ T). exact Is.
+    + apply in_map_iff in H. destruct H as [s [Es Is]]. apply in_flat_map in Is. destruct Is as [e [Ie Is]].
+      destruct (Nat.eqb (snd e) 0); [destruct Is|]. destruct (find_sym st (fst e)) as [n|] eqn:F; [|destruct Is].
+      destruct (existsb _ out); [destruct Is|]. destruct Is as [Is|[]]. subst s i.
+      rewrite (find_sym_id _ _ _ F). apply (t_keys _ _ _ _ _ _ T). exact Ie.
+  - intros Ii. destruct (existsb (fun s => Nat.eqb (s_id s) i) out) eqn:X; [left; apply in_ids_existsb; exact X|right].
+    assert (Ni : ~ In i (ids out)) by (rewrite <- in_ids_existsb, X; discriminate).
+    assert (Nsb : i <> s_id sb).
+    { intros E. subst i. destruct (t_sb _ _ _ _ _ _ T) as [H|[]]. contradiction. }
+    assert (Cz : cnt deg' i <> 0).
+    { intros Z. destruct (t_zero _ _ _ _ _ _ T i Ii Nsb Z) as [H|[]]. contradiction. }
+    unfold cnt in Cz. destruct (find (fun e : nat * nat => Nat.eqb (fst e) i) deg') as [e|] eqn:F; [|contradiction].
+    apply find_some in F. destruct F as [Ie Ee]. apply Nat.eqb_eq in Ee.
+    pose proof Ii as Ri. apply (rd_iff _ _ _ _ RD) in Ri. destruct Ri as [|j n Hj In_]; [contradiction|].
+    apply in_map_iff. exists n. split; [reflexivity|]. apply in_flat_map. exists e. split; [exact Ie|].
+    destruct (Nat.eqb_spec (snd e) 0) as [Z|Z]; [contradiction|]. rewrite Ee, (nx_canon _ _ _ In_), X. left. reflexivity.
+Qed.
+
+(* --- one load (unload) whose flows all succeed notifies EXACTLY the members of the walk that pass the activation
+   test: with [linked_members] and [is_activated_iff_closure], exactly the symbols that reach the start symbol through
+   references and whose reference closure is present --- *)
+Lemma life_fold_exact (f : tstate -> sym -> tstate * option nat) (mk : nat -> ev) l :
+  (forall st s, same_tab st (fst (f st s))) ->
+  (forall st s, exists es, events (fst (f st s)) = events st ++ es /\ (forall i, In (mk i) es -> i = s_inst s) /\
+                           (snd (f st s) = None -> In (mk (s_inst s)) es)) ->
+  forall st0, exists es,
+    events (fst (life_fold_from f l (st0, None))) = events st0 ++ es /\
+    (forall i, In (mk i) es -> exists s, In s l /\ s_inst s = i /\ is_activated st0 s = true) /\
+    (snd (life_fold_from f l (st0, None)) = None ->
+     forall s, In s l -> is_activated st0 s = true -> In (mk (s_inst s)) es).
+Proof.
+  intros Hs Hf. unfold life_fold_from. induction l as [|s l IH]; intros st0; cbn [fold_left fst snd].
+  - exists []. rewrite app_nil_r. split; [reflexivity|]. split; [intros i []|intros _ x []].
+  - destruct (is_activated st0 s) eqn:A.
+    + destruct (f st0 s) as [st1 e1] eqn:Ef. pose proof (Hs st0 s) as S1. rewrite Ef in S1. cbn [fst] in S1.
+      destruct (Hf st0 s) as [es1 [E1 [H1 K1]]]. rewrite Ef in E1, K1. cbn [fst snd] in E1, K1.
+      destruct e1 as [e|].
+      * rewrite life_fold_abort. cbn [fst snd]. exists es1. split; [exact E1|]. split; [|discriminate].
+        intros i Ii. exists s. split; [left; reflexivity|]. split; [symmetry; apply H1; exact Ii|exact A].
+      * destruct (IH st1) as [es2 [E2 [H2 K2]]]. exists (es1 ++ es2). split; [rewrite E2, E1, app_assoc; reflexivity|]. split.
+        -- intros i Ii. apply in_app_or in Ii. destruct Ii as [Ii|Ii].
+           ++ exists s. split; [left; reflexivity|]. split; [symmetry; apply H1; exact Ii|exact A].
+           ++ destruct (H2 i Ii) as [x [Ix [Ex Ax]]]. exists x. split; [right; exact Ix|]. split; [exact Ex|].
+              rewrite <- (is_activated_same st0 st1 x S1). exact Ax.
+        -- intros Fin x Ix Ax. apply in_or_app. destruct Ix as [Ix|Ix].
+           ++ subst x. left. apply K1. reflexivity.
+           ++ right. apply K2; [exact Fin|exact Ix|]. rewrite (is_activated_same st0 st1 x S1). exact Ax.
+    + destruct (IH st0) as [es [E [H K]]]. exists es. split; [exact E|]. split.
+      * intros i Ii. destruct (H i Ii) as [x [Ix R]]. exists x. split; [right; exact Ix|exact R].
+      * intros Fin x Ix Ax. destruct Ix as [Ix|Ix]; [subst x; congruence|]. apply K; assumption.
+Qed.
+
+Lemma activate_exact st s : exists es, events (fst (activate st s)) = events st ++ es /\
+  (forall i, In (ELoad i) es -> i = s_inst s) /\ (snd (activate st s) = None -> In (ELoad (s_inst s)) es).
+Proof.
+  destruct (activate_shape st s) as [i [b E]]. eexists. split; [exact E|]. split.
+  - intros j Ij. apply in_app_or in Ij. destruct Ij as [Ij|Ij]; [apply in_repeat_inv in Ij; discriminate|].
+    destruct (snd (exec st s port_init)); [contradiction|]. destruct Ij as [Ej|Ij]; [congruence|apply in_repeat_inv in Ij; discriminate].
+  - intros N. unfold activate in N. destruct (exec st s port_init) as [st1 [e|]]; cbn [snd] in *; [discriminate|].
+    apply in_or_app. right. left. reflexivity.
+Qed.
+Lemma deactivate_exact st s : exists es, events (fst (deactivate st s)) = events st ++ es /\
+  (forall i, In (EUnload i) es -> i = s_inst s) /\ (snd (deactivate st s) = None -> In (EUnload (s_inst s)) es).
+Proof.
+  destruct (deactivate_shape st s) as [i [b E]]. eexists. split; [exact E|]. split.
+  - intros j Ij. apply in_app_or in Ij. destruct Ij as [Ij|Ij]; [apply in_repeat_inv in Ij; discriminate|].
+    destruct (snd (exec st s port_term)); [contradiction|]. destruct Ij as [Ej|Ij]; [congruence|apply in_repeat_inv in Ij; discriminate].
+  - intros N. unfold deactivate in N. destruct (exec st s port_term) as [st1 [e|]]; cbn [snd] in *; [discriminate|].
+    apply in_or_app. right. left. reflexivity.
+Qed.
+
+Theorem load_exactly st sb : snd (load st sb) = None ->
+  exists es, events (fst (load st sb)) = events st ++ es /\
+    forall i, In (ELoad i) es <->
+      exists s, In s (linked st sb) /\ s_inst s = i /\ reachable st sb (s_id s) /\ is_activated st s = true.
+Proof.
+  intros Fin. unfold load, life_fold in *.
+  destruct (life_fold_exact activate ELoad (linked st sb) activate_same activate_exact st) as [es [E [H K]]].
+  exists es. split; [exact E|]. intros i. split.
+  - intros Ii. destruct (H i Ii) as [s [Is [Es As]]]. exists s. split; [exact Is|]. split; [exact Es|]. split; [|exact As].
+    apply linked_members. apply in_map. exact Is.
+  - intros [s [Is [Es [_ As]]]]. subst i. apply K; assumption.
+Qed.
+
+Theorem unload_exactly st sb : snd (unload st sb) = None ->
+  exists es, events (fst (unload st sb)) = events st ++ es /\
+    forall i, In (EUnload i) es <->
+      exists s, In s (linked st sb) /\ s_inst s = i /\ reachable st sb (s_id s) /\ is_activated st s = true.
+Proof.
+  intros Fin. unfold unload, life_fold in *.
+  destruct (life_fold_exact deactivate EUnload (rev (linked st sb)) deactivate_same deactivate_exact st) as [es [E [H K]]].
+  exists es. split; [exact E|]. intros i. split.
+  - intros Ii. destruct (H i Ii) as [s [Is [Es As]]]. apply in_rev in Is. exists s. split; [exact Is|]. split; [exact Es|]. split; [|exact As].
+    apply linked_members. apply in_map. exact Is.
+  - intros [s [Is [Es [_ As]]]]. subst i. apply K; [exact Fin|apply in_rev; rewrite rev_involutive; exact Is|exact As].
 Qed.
